@@ -43,7 +43,7 @@ def gen_shape(rng):
     durOf, nextOf = {}, {}
     for s in names:
         if rng.random() < 0.7:
-            durOf[s] = rng.choice([1, 2, 3, 5, 8, 64, 128])
+            durOf[s] = rng.choice([0, 1, 2, 3, 5, 8, 64, 128])
             nextOf[s] = rng.choice(["none"] + names)
         else:
             durOf[s] = -1
@@ -147,7 +147,7 @@ def random_events(rng, shape, n):
             evs.append({"e": "disable"})
             continue
         if r < 0.11 and timed:
-            evs.append({"e": "sdw", "s": rng.choice(timed), "d": rng.choice([1, 2, 4, 6, 40, 64, 100, 176])})
+            evs.append({"e": "sdw", "s": rng.choice(timed), "d": rng.choice([0, 1, 2, 4, 6, 40, 64, 100, 176])})
             continue
         if r < 0.13:
             evs.append({"e": "varw", "v": rng.choice([1, 2, 3, 4, 6, 8, 11, 16])})
